@@ -215,3 +215,178 @@ pub fn bytes_eq(a: &[u8], b: &[u8]) -> bool {
     }
     ok
 }
+
+// ---------------------------------------------------------------------------------- C04
+/// braces properly nested
+pub fn balanced(p: &[u8]) -> bool {
+    let mut depth: usize = 0;
+    let mut i = 0;
+    while i < p.len() {
+        if p[i] == b'{' {
+            depth += 1;
+        } else if p[i] == b'}' {
+            if depth == 0 {
+                return false;
+            }
+            depth -= 1;
+        }
+        i += 1;
+    }
+    depth == 0
+}
+
+/// csh-style expansion of a pattern with balanced braces: first `{`, its matching `}`, commas at
+/// that group's own depth separate the alternatives (empty ones allowed); recurse on each result.
+pub fn expand(p: &[u8]) -> Vec<Vec<u8>> {
+    let mut i = 0;
+    while i < p.len() && p[i] != b'{' {
+        i += 1;
+    }
+    if i == p.len() {
+        return vec![p.to_vec()];
+    }
+    // matching close and top-level commas
+    let mut depth = 0usize;
+    let mut j = i;
+    let mut cuts: Vec<usize> = vec![i];
+    loop {
+        if p[j] == b'{' {
+            depth += 1;
+        } else if p[j] == b'}' {
+            depth -= 1;
+            if depth == 0 {
+                break;
+            }
+        } else if p[j] == b',' && depth == 1 {
+            cuts.push(j);
+        }
+        j += 1;
+    }
+    cuts.push(j);
+    let mut out: Vec<Vec<u8>> = Vec::new();
+    let mut k = 0;
+    while k + 1 < cuts.len() {
+        let mut s: Vec<u8> = p[0..i].to_vec();
+        s.extend_from_slice(&p[cuts[k] + 1..cuts[k + 1]]);
+        s.extend_from_slice(&p[j + 1..]);
+        for e in expand(&s) {
+            out.push(e);
+        }
+        k += 1;
+    }
+    out
+}
+
+// ---------------------------------------------------------------------------------- C05
+/// One element of a compiled shell glob.
+pub enum G {
+    Lit(char),
+    One,
+    Star,
+    Set(bool, Vec<(char, char)>), // negated?, inclusive ranges (single = (c, c))
+}
+
+/// Parse the shell-glob subset pkgsrc uses.  None = malformed (a `[` that is not closed by a
+/// `]` after at least one set character).  A `]` outside a set is a literal.
+pub fn glob_parse(p: &[char]) -> Option<Vec<G>> {
+    let mut out = Vec::new();
+    let mut i = 0;
+    while i < p.len() {
+        let c = p[i];
+        if c == '?' {
+            out.push(G::One);
+            i += 1;
+        } else if c == '*' {
+            out.push(G::Star);
+            i += 1;
+        } else if c == '[' {
+            let mut j = i + 1;
+            let neg = j < p.len() && p[j] == '!';
+            if neg {
+                j += 1;
+            }
+            // the first set character may be anything (even ']'); find the closing ']' after it
+            let start = j;
+            let mut end = start + 1;
+            while end < p.len() && p[end] != ']' {
+                end += 1;
+            }
+            if start >= p.len() || end >= p.len() {
+                return None;
+            }
+            let mut rs = Vec::new();
+            let mut k = start;
+            while k < end {
+                if k + 2 < end && p[k + 1] == '-' {
+                    rs.push((p[k], p[k + 2]));
+                    k += 3;
+                } else {
+                    rs.push((p[k], p[k]));
+                    k += 1;
+                }
+            }
+            out.push(G::Set(neg, rs));
+            i = end + 1;
+        } else {
+            out.push(G::Lit(c));
+            i += 1;
+        }
+    }
+    Some(out)
+}
+
+/// whole-string, case-sensitive match
+pub fn glob_match(g: &[G], gi: usize, n: &[char], ni: usize) -> bool {
+    if gi == g.len() {
+        return ni == n.len();
+    }
+    match &g[gi] {
+        G::Star => {
+            let mut k = ni;
+            loop {
+                if glob_match(g, gi + 1, n, k) {
+                    return true;
+                }
+                if k == n.len() {
+                    return false;
+                }
+                k += 1;
+            }
+        }
+        G::One => ni < n.len() && glob_match(g, gi + 1, n, ni + 1),
+        G::Lit(c) => ni < n.len() && n[ni] == *c && glob_match(g, gi + 1, n, ni + 1),
+        G::Set(neg, rs) => {
+            if ni >= n.len() {
+                return false;
+            }
+            let mut inside = false;
+            for (lo, hi) in rs {
+                inside = inside | ((n[ni] >= *lo) & (n[ni] <= *hi));
+            }
+            (inside != *neg) && glob_match(g, gi + 1, n, ni + 1)
+        }
+    }
+}
+
+pub fn chars_of(s: &str) -> Vec<char> {
+    let b = s.as_bytes();
+    let mut out = Vec::new();
+    let mut i = 0;
+    while i < b.len() {
+        let x = b[i] as u32;
+        if x < 0x80 {
+            out.push(x);
+            i += 1;
+        } else if x < 0xE0 {
+            out.push(((x & 0x1F) << 6) | (b[i + 1] as u32 & 0x3F));
+            i += 2;
+        } else if x < 0xF0 {
+            out.push(((x & 0x0F) << 12) | ((b[i + 1] as u32 & 0x3F) << 6) | (b[i + 2] as u32 & 0x3F));
+            i += 3;
+        } else {
+            out.push(((x & 0x07) << 18) | ((b[i + 1] as u32 & 0x3F) << 12) | ((b[i + 2] as u32 & 0x3F) << 6) | (b[i + 3] as u32 & 0x3F));
+            i += 4;
+        }
+    }
+    out.into_iter().map(|u| char::from_u32(u).unwrap_or('?')).collect()
+}
